@@ -58,6 +58,8 @@ let () =
     | ["&"; d1; d2] -> nodes := PAnd (drv d1, drv d2) :: !nodes
     | ["S"; d] -> nodes := PSignal (drv d) :: !nodes
     | ["O"; _; _] -> nodes := PAtom :: !nodes
+    | ["M"; _] -> nodes := PAtom :: !nodes          (* output port 0 of an opaque multi-output node *)
+    | ["P"; _; _] -> nodes := PAtom :: !nodes       (* another output port of that node: a different atom *)
     | [""] | [] -> ()
     | _ -> failwith ("bad line: " ^ line)
   done with End_of_file -> ());
